@@ -20,6 +20,17 @@ sys.path.insert(0, os.path.join(os.path.dirname(os.path.abspath(__file__)), ".."
 import vlib
 from vlib import log
 
+MAX_VIOLATION_FILES = 40
+
+
+def report(chk, what, replay_obj, key=None):
+    """chk.violation, but a broken tree must not leave tens of thousands of replay files behind"""
+    if len(chk.violations) < MAX_VIOLATION_FILES:
+        chk.violation(what, replay_obj, key)
+    else:
+        chk.extra["violations_not_recorded"] = chk.extra.get("violations_not_recorded", 0) + 1
+
+
 SPECD = os.path.join(vlib.SPEC, "hist")
 DOMAIN = F(2) ** 43          # the property speaks about values below 2^43
 TOL_SAM = F(1, 10 ** 12)     # sort-and-merge: reported value == recorded value up to f64 rounding of total = v * n
@@ -494,7 +505,7 @@ def run_cases(chk, table, cases, tag):
         chk.evaluations += 1
         chk.nontrivial.add((c["strategy"], c["kind"], c.get("what")))
         if viol:
-            chk.violation(viol, {"kind": "case", "case": c, "observed": res}, key=f"C11:{c['strategy']}:{c['kind']}")
+            report(chk, viol, {"kind": "case", "case": c, "observed": res}, key=f"C11:{c['strategy']}:{c['kind']}")
         else:
             ok += 1
             if drift and len(chk.drift) < 20:
@@ -525,7 +536,7 @@ def compare_variants(chk, cases, results):
         oe = [x["obs"] for x in e["drains"]]
         if oa != oe:
             k = next(i for i in range(len(oa)) if oa[i] != oe[i])
-            chk.violation(f"atomic and non-atomic exponential histograms differ on the same inputs ({d['exp'].get('what')}, "
+            report(chk, f"atomic and non-atomic exponential histograms differ on the same inputs ({d['exp'].get('what')}, "
                           f"{d['exp']['kind']} source): non-atomic {oe[k][:4]} atomic {oa[k][:4]}",
                           {"kind": "pair", "exp": d["exp"], "atomic": d["atomic"], "observed": {"exp": e, "atomic": a}},
                           key="C11:atomic-vs-exp")
@@ -553,11 +564,11 @@ def run_conc(chk, table, runs, threads=8, per=100_000):
               "run": o["run"]}
         tot = sum(x[2] for x in o["atomic"] if x[0] == "r")
         if tot != o["recorded"]:
-            chk.violation(f"{threads} threads x {per} concurrent add_value recorded {o['recorded']} observations, the closed "
+            report(chk, f"{threads} threads x {per} concurrent add_value recorded {o['recorded']} observations, the closed "
                           f"SharedHistogram reports {tot}", rp, key="C11:conc-count")
             continue
         if o["atomic"] != o["seq"]:
-            chk.violation("SharedHistogram after concurrent recording differs from the non-atomic histogram fed the same "
+            report(chk, "SharedHistogram after concurrent recording differs from the non-atomic histogram fed the same "
                           "inputs sequentially", rp, key="C11:conc-vs-seq")
             continue
         exp = expect_model(table, "exp", [(vals[i], n) for i, n in enumerate(o["tally"]) if n > 0])
